@@ -145,6 +145,7 @@ def failure_edges(n, call_bb, failure_value):
 
 
 _b_cache = {}
+_pipe_actions = {}
 
 
 def c13b(F):
@@ -171,6 +172,7 @@ def c13b(F):
                     e = deep_strip(e)
                     if e[0] == "agg" and e[1][0] == "closure":
                         action_defs.add(e[1][1])
+        _pipe_actions.setdefault(id(F), set()).update(action_defs)
         # the registration itself must not put bytes into the pipe: any send()/write() it makes on the descriptor is the zero-length probe
         for (pb, pt, pci) in call_sites(F, m, lambda ci: ci.kind == "foreign" and ci.symbol in ("send", "write", "sendto")):
             ln = [fold(e) for e in fl.term_arg(pb, 2)]
@@ -365,6 +367,16 @@ def rule_a(ctx):
         ctx.check(okk, rid, "wake-chain:%s" % keyname(m.name), "%s wakes exactly once per invocation" % m.name.split("::")[-1][:70], m.span, why)
     if nfr < 4:
         raise AnchorLost("expected >= 4 frames on the wake path, found %d" % nfr)
+    # the action a self-pipe registration hands to the registry is one of those frames (an action that no longer wakes is not "a frame
+    # without a wake", it is the property gone)
+    c13b(F)
+    acts = _pipe_actions.get(id(F)) or set()
+    if not acts:
+        raise AnchorLost("the action closure handed to the registry by the self-pipe registration")
+    for d in sorted(acts):
+        fr = [m for m, n in frames if m.kind == "closure" and (m.defp == d or ("{closure@%s}" % d) in m.name)]
+        ctx.check(bool(fr) and all(m.id in wakers for m in fr), rid, "registered-action-wakes:%s" % keyname(d), "the action registered for a self-pipe reaches a "
+                  "one-byte write()/send() (it is a frame of the wake path)", fr[0].span if fr else None, {"frames": [m.name[:120] for m in fr]})
 
 
 def rule_b(ctx):
